@@ -37,6 +37,8 @@ class Layout:
         self.i = 0
         self.force_doc_indent = force_doc_indent
         self.features = set()
+        # module-wide mode: no doccomment opener is the first thing on its line (a bracket comment precedes every one)
+        self.all_openers_inline = bool(self.c) and len(self.c) >= 2 and (self.c[0] + self.c[-1]) % 7 == 3
 
     def pick(self, n):
         if not self.c:
@@ -171,6 +173,8 @@ def render_doc(doc, lay, module_name=False, head=None):
     # the opener's own leading whitespace is inter-token whitespace (the token starts at '#[[['): it may differ
     # from the block indentation, and a bracket comment may precede the opener on its line
     k = lay.pick(8)
+    if lay.all_openers_inline and doc.get("form") != "bare" and doc.get("indent") is None:
+        k = 7
     lead = ind
     if doc.get("form") != "bare" and doc.get("indent") is None:
         if k == 5:
